@@ -16,11 +16,16 @@ CF = {"photon": "FPhoton", "pixel": "FPixel", "signal": "FSignal", "image": "FIm
 
 TRUSTED = [
     "translator/c18.py (to_dict/from_dict key tables of CCD/CMOS/MKID/APD, Detector.from_dict dispatch, Photon sub-keys "
-    "and escaping, pass-through shape of backends/asdf.py, body shape of load_detector; fails closed)",
+    "and escaping; that every comprehension of to_asdf / Scene.to_dict / Scene.from_dict / Photon.to_dict / from_dict keeps "
+    "EVERY entry and converts with a plain .to_dict(); pass-through shape of backends/asdf.py and whether the cluster "
+    "table's row labels are stored and read back; body shapes of load_detector and save_detector; fails closed)",
     "correspondence harness: harness/props/c18.py generators, harness/drivers/c18.py, probes/verif_probes_c18.py "
-    "(structural canonical form; floats compared as binary64 bit patterns)",
-    "modelled, not verified: asdf's own serialisation of arrays/dicts, xarray DataArray/Dataset/DataTree to_dict/from_dict, "
-    "pandas DataFrame.to_dict(orient='list') / DataFrame(dict) (the model only says: row labels are not stored)",
+    "(structural canonical form: every group of a tree, variables / coordinates with dims in order, dtype, shape, values, "
+    "attributes of groups / variables / coordinates; floats compared as binary64 bit patterns)",
+    "modelled, not verified: asdf's own serialisation of arrays/dicts; xarray Dataset/DataArray.to_dict()/from_dict modelled "
+    "as 'values become nested lists, numpy infers dtype and shape back' (Model/Codec.v listify_arr, tied by correspondence "
+    "on 16 dtypes and 0-d / 0-length / 0-size shapes); DataTree.to_dict/from_dict modelled as path flattening + creation of "
+    "implied ancestors; pandas DataFrame.to_dict(orient='list') / DataFrame(dict, index=...)",
 ]
 
 
@@ -36,13 +41,25 @@ def gen_container(r, f, rows, cols, flavour=None):
     n = rows * cols
     if f == "photon":
         mode = flavour or r.choice(["2d", "3d"])
-        if mode == "2d":
-            return {"mode": "2d", "vals": [dy(r) for _ in range(n)]}
+        if mode.startswith("2d"):
+            out = {"mode": "2d", "vals": [dy(r) for _ in range(n)]}
+            if mode == "2d_narrow" or (flavour is None and r.random() < 0.25):
+                out["dtype"] = r.choice(["float32", "float16"])       # Photon.TYPE_LIST; stored as an ndarray: kept
+            return out
         nw = r.choice([1, 2, 3])
         wl = sorted(r.sample(range(300, 900, 25), nw))
-        return {"mode": "3d", "wl": wl, "vals": [dy(r) for _ in range(n * nw)]}
+        out = {"mode": "3d", "wl": wl, "vals": [dy(r) for _ in range(n * nw)]}
+        if mode == "3d_narrow":       # known defect class: a DataArray goes through .to_dict(): the dtype is not stored
+            out["dtype"] = r.choice(["float32", "float16"])
+        if mode == "3d_attrs" or (flavour is None and r.random() < 0.3):
+            out["attrs"] = gen_attrs(r)
+            out["name"] = r.choice(["photon", "ph #1", None])
+            out["wl_attrs"] = gen_attrs(r, 1)
+        return out
     if f in ("pixel", "signal", "phase", "charge_array"):
         v = [dy(r, 1 if f == "charge_array" else 0) for _ in range(n)]
+        if f != "charge_array" and (flavour == "narrow" or (flavour is None and r.random() < 0.25)):
+            return {"dtype": r.choice(["float32", "float16"]), "vals": v}     # TYPE_LIST of Pixel / Signal / Phase
         return v
     if f == "image":
         dt = r.choice(["uint8", "uint16", "uint32", "uint64"])
@@ -356,7 +373,8 @@ def structured_cases(ctx: Ctx, r):
             cases.append({"route": route, "spec": make_spec(r, kind, fs, {"photon": "3d"})})
             cases.append({"route": route, "spec": make_spec(r, kind, fs, {"photon": "2d"})})
             for f in fs:
-                for fl in ({"photon": ["2d", "3d"]}.get(f, [None])):
+                for fl in ({"photon": ["2d", "3d", "2d_narrow", "3d_narrow", "3d_attrs"], "pixel": [None, "narrow"],
+                            "signal": [None, "narrow"], "phase": [None, "narrow"]}.get(f, [None])):
                     cases.append({"route": route, "spec": make_spec(r, kind, [f], {f: fl} if fl else None)})
             # array + cluster table together, relabelled rows, '#' in a processed-data group name
             cases.append({"route": route, "spec": make_spec(r, kind, ["charge_array", "charge_frame"])})
@@ -421,8 +439,14 @@ def pipeline_cases(ctx: Ctx, r, per_kind):
             present = fs if j == 0 else ([f for f in fs if r.random() < 0.6] or ["pixel"])
             filespec = make_spec(r, kind, present, {"charge_frame": "plain", "photon": r.choice(["2d", "3d"])}, dims=dims, props={})
             running = make_spec(r, kind, [f for f in fs if r.random() < 0.4], {"charge_frame": "plain"}, dims=dims, props={})
-            cases.append({"route": "pipeline", "spec": filespec, "running": running, "probe_before": True,
-                          "group": groups[j % len(groups)]})
+            case = {"route": "pipeline", "spec": filespec, "running": running, "probe_before": True,
+                    "group": groups[j % len(groups)]}
+            if j % 2 == 1 or j == 0:
+                # save_detector as a MODEL (in any group) writes the file; the loading pipeline first fills its detector
+                case.update(save="model", save_group=groups[(j + KINDS.index(kind)) % len(groups)], fill_running=True)
+            cases.append(case)
+            if j == 0:
+                cases.append(dict(case, save=None, fill_running=True))
     return cases
 
 
@@ -473,6 +497,9 @@ def coq_cases(payload, obs):
             run = obs.get("before")
             rr = "None" if run is None else f"(Some {c_snap(run)})"
             out.append((lab, f"(mk_case RLoad {c_snap(obs['file'])} {rr} {bb})"))
+        if "file_back" in obs:      # the file written by the save_detector model, read back outside any pipeline
+            fb = obs["file_back"]
+            out.append(("file", f"(mk_case RFile {c_snap(obs['file'])} None {'None' if 'raise' in fb else '(Some ' + c_snap(fb) + ')'})"))
     return out
 
 
@@ -579,6 +606,8 @@ def input_class(payload, f):
     if f == "charge_frame" and (init.get("charge_frame") or {}).get("remove") is not None:
         return "relabelled_rows"
     if f == "photon" and init.get("photon"):
+        if init["photon"]["mode"] == "3d" and init["photon"].get("dtype", "float64") != "float64":
+            return "tree_dtype_not_default"
         return "photon_" + init["photon"]["mode"]
     return "plain"
 
@@ -596,6 +625,13 @@ def shrink_payload(payload, f):
 def violations_of(ctx, payload, obs, label):
     vs = []
     kind = payload["spec"]["kind"]
+    if label == "file":       # pipeline case, the file written by the save_detector model: an .asdf round trip
+        vs = violations_of(ctx, dict(payload, route="asdf"), {"orig": obs["file"], "back": obs["file_back"]}, "roundtrip")
+        for v in vs:
+            v.sig["written_by"] = "save_detector_model"
+            v.case = payload
+            v._full = payload
+        return vs
     if payload["route"] in ("dict", "asdf"):
         back = obs["back"]
         if "raise" in back:
@@ -720,14 +756,19 @@ def nontrivial_key(p):
 def account(ctx, units):
     seen = ctx.cov.setdefault("_keys", set())
     for p, o, lab, _ in units:
-        if lab == "final":
+        if lab in ("final", "file"):
             continue
         ctx.count("evaluations")
+        if p["route"] == "pipeline":
+            ctx.dist("pipeline_file_written_by", "save_detector model" if p.get("save") == "model" else "Detector.save")
+            ctx.dist("pipeline_group", p.get("group"))
         ctx.dist("route", p["route"])
         ctx.dist("kind", p["spec"]["kind"])
         ctx.dist("n_initialised", len(p["spec"].get("init", {})))
         for f in p["spec"].get("init", {}):
             ctx.dist("container", f + (":" + p["spec"]["init"][f]["mode"] if f == "photon" else ""))
+            if isinstance(p["spec"]["init"][f], dict) and f in ("photon", "pixel", "signal", "phase", "image"):
+                ctx.dist("array_dtype", f + ":" + p["spec"]["init"][f].get("dtype", "float64" if f != "image" else "uint16"))
             tr = (p["spec"]["init"][f] or {}).get("tree") if f in ("data", "scene") else None
             if tr:
                 ctx.dist("tree_flavour", f + ":" + tr.get("flavour", "?"))
@@ -988,20 +1029,24 @@ META = dict(
     level_text=(
         "Coq theorems over an executable model of the detector <-> dictionary <-> ASDF codec whose key tables (which "
         "container is written under which key, which key from_dict reads back into which container, type tag / guard / "
-        "dispatch, Photon sub-keys, '/'<->'#' escaping) and the body shape of load_detector are regenerated from the "
-        "source on every run: for every detector type and EVERY subset of initialised containers from_dict(to_dict d) = d "
-        "(and the same through the ASDF conversions) on the containers the tables cover, proved once for arbitrary tables "
-        "and instantiated by vm_compute; the full statements are kept and refuted by proved witnesses where the current "
-        "code breaks them (MKID phase never read back; '#' in a processed-data group name; cluster-table row labels not "
-        "stored by the ASDF backend; load_detector is a no-op on the running detector). That the real to_dict/from_dict/"
-        "save/load behave as the model is established by correspondence (testing): structural field-by-field comparison of "
-        "original vs. reloaded detector for 4 types x container subsets (exhaustive in the thorough tier) via dict and via "
-        ".asdf files, and a pipeline [load_detector; probe]; model-vs-implementation and implementation-vs-specification "
-        "are both decided inside Coq."),
+        "dispatch, Photon sub-keys, '/'<->'#' escaping, whether the backend keeps the cluster table's row labels) and the "
+        "body shapes of load_detector / save_detector are regenerated from the source on every run: for every detector type "
+        "and EVERY subset of initialised containers from_dict(to_dict d) = d on ALL nine containers, and the same through the "
+        "ASDF conversions, proved once for arbitrary tables and instantiated by vm_compute (C18_roundtrip_partial / "
+        "C18_file_roundtrip_partial; the remaining hypotheses name exactly the open defects: a '#' in a group name, a "
+        "variable whose dtype / shape does not survive Dataset.to_dict()'s nested lists - each kept as a refuted full "
+        "statement with a proved witness); for ALL trees the group structure (every group, also one without data "
+        "variables, with every entry, shape and value) survives whatever the dtypes (C18_tree_structure_kept); "
+        "load_detector stores every container into the passed detector (C18_load_replaces) and save ... load inside "
+        "pipelines shows the saved containers to later models (C18_load_sees_saved). That the real to_dict/from_dict/"
+        "save/load/save_detector/load_detector behave as the model is established by correspondence (testing): structural "
+        "comparison of original vs. reloaded detector for 4 types x container subsets x tree classes via dict and via "
+        ".asdf files, and pipelines [fill; save_detector] / [fill; probe; load_detector; probe] in every model group; "
+        "model-vs-implementation and implementation-vs-specification are both decided inside Coq."),
     level_note=(
         "Trusted: Coq kernel + vm_compute; translator/c18.py; the correspondence harness and canonical form. Not carried: "
-        "asdf/xarray/pandas serialisation internals (payloads are opaque in the model), HDF5 (h5py absent), detector "
-        "state outside the property's list (Charge.nextid, _memory, persistence, readout clock)."),
+        "asdf's byte-level serialisation, xarray/pandas internals beyond the list model, HDF5 (h5py absent), detector "
+        "state outside the property's list (Charge.nextid, _memory, persistence, readout clock), DataTree root names."),
     technique="Coq proof over table-driven codec model + regenerated key tables + in-Coq correspondence/spec evaluation",
     design_ref="DESIGN.md section 6, C18",
 )
